@@ -271,3 +271,38 @@ func cliBigAndBlank() (inputs []string, exprs []string) {
 	exprs = []string{"@", "id", "a", "id == `9007199254740992`", "id > `1`", "type(id)", "abs(neg)", "[0]", "[1] > [0]", "to_string(@)", "a.b", "sum(@)"}
 	return
 }
+
+// several raw strings with escaped quotes in one expression, with other tokens between them (C14, C01)
+func famMultiRawTargeted(r *Run) {
+	d := map[string]interface{}{"foo": []interface{}{map[string]interface{}{"a": "it's"}, map[string]interface{}{"a": "he's"}, map[string]interface{}{"a": "x"}}, "k": 1.0}
+	type tc struct {
+		text string
+		want interface{}
+	}
+	cases := []tc{
+		{`['a\'b', 'c\'d']`, []interface{}{"a'b", "c'd"}},
+		{`['a\'b', 'x', 'c\'d']`, []interface{}{"a'b", "x", "c'd"}},
+		{`['\'', '\'']`, []interface{}{"'", "'"}},
+		{`['\'\'', 'p', '\'']`, []interface{}{"''", "p", "'"}},
+		{`{a: 'p\'q', b: 'r\'s'}`, map[string]interface{}{"a": "p'q", "b": "r's"}},
+		{`'a\'b' | 'c\'d'`, "c'd"},
+		{`['a\'b', "k", ` + "`\"l\"`" + `, 'c\'d', 'plain']`, []interface{}{"a'b", 1.0, "l", "c'd", "plain"}},
+		{`foo[?a == 'it\'s' || a == 'he\'s'].a`, []interface{}{"it's", "he's"}},
+		{`foo[?a == 'it\'s'].a | [@, 'he\'s']`, []interface{}{[]interface{}{"it's"}, "he's"}},
+		{`['a\\\'b', 'c\'d\\']`, nil},
+		{`[join('\'', ['a', 'b']), 'c\'d']`, []interface{}{"a'b", "c'd"}},
+		{`['no quote', 'a\'b', 'none', 'c\'d', 'e\'f']`, []interface{}{"no quote", "a'b", "none", "c'd", "e'f"}},
+		{`contains('a\'b', '\'') && contains('c\'d', 'c\'')`, true},
+		{`['a\'b'] | [@[0], 'c\'d']`, []interface{}{"a'b", "c'd"}},
+	}
+	for _, c := range cases {
+		r.mark("multi-raw-targeted", c.text, d)
+		o := observeSearch(c.text, d)
+		if c.want != nil && (o.Kind != "val" || !jsonEqual(o.Value, c.want)) {
+			wb, _ := json.Marshal(c.want)
+			r.violate("multi-raw-targeted", c.text, d, "raw strings with escaped quotes in one expression do not denote the written values", "library: "+o.String()+" written: "+string(wb))
+		}
+		r.addSearch("multi-raw-targeted", c.text, d, "exact")
+		r.addTok("multi-raw-targeted", c.text)
+	}
+}
